@@ -52,8 +52,11 @@ Definition expected_WriteSector : list shape_stmt :=
            SEff0 ENow "timestamp := time.Now().Unix()";
            SEff2 ECallSetHead "err := r.setHead(x, z, uint32(r.offsets[z][x]), uint32(timestamp))" tt tt;
            SErrDo "return err"
-             [SFor LCounted Vi "for i := int32(0); i < oldNow; i++" tt
-                [SMark "r.sectors[oldN+i] = true" tt true]];
+             [SFor LCounted Vi "for i := int32(0); i < need; i++" tt
+                [SMark "r.sectors[n+i] = false" tt false];
+              SFor LCounted Vi "for i := int32(0); i < oldNow; i++" tt
+                [SMark "r.sectors[oldN+i] = true" tt true];
+              SEff ESetOffset "r.offsets[z][x] = (oldN << 8) | (oldNow & 0xFF)" tt];
            SEff ESetTs "r.Timestamps[z][x] = int32(timestamp)" tt];
         SEff ESeek "_, err := r.f.Seek(4096*int64(n), 0)" tt; SErrCheck "return err";
         SEff EWriteInt32 "err = binary.Write(r.f, binary.BigEndian, int32(len(data)))" tt;
@@ -75,10 +78,10 @@ Definition expected_findSpace : list shape_stmt :=
         SRet "return"].
 
 Definition expected_setHead : list shape_stmt :=
-  [SEff0 EVarBuf "var buf [4]byte"; SEff EPut32 "binary.BigEndian.PutUint32(buf[:], offset)" tt;
-        SEff EWriteAt "_, err = r.writeAt(buf[:], 4*(int64(z)*32+int64(x)))" tt; 
-        SErrCheck "return"; SEff EPut32 "binary.BigEndian.PutUint32(buf[:], timestamp)" tt;
+  [SEff0 EVarBuf "var buf [4]byte"; SEff EPut32 "binary.BigEndian.PutUint32(buf[:], timestamp)" tt;
         SEff EWriteAt "_, err = r.writeAt(buf[:], 4096+4*(int64(z)*32+int64(x)))" tt; 
+        SErrCheck "return"; SEff EPut32 "binary.BigEndian.PutUint32(buf[:], offset)" tt;
+        SEff EWriteAt "_, err = r.writeAt(buf[:], 4*(int64(z)*32+int64(x)))" tt; 
         SErrCheck "return"; SRet "return"].
 
 Definition expected_Region_fields : list string :=
